@@ -107,7 +107,7 @@ struct EmitContext {
     /// Set of LIST declaration names (to detect list-typed function calls)
     list_names: BTreeSet<String>,
     /// For each list name, a map from bare item name → (qualified name, value)
-    list_items: std::collections::BTreeMap<String, Vec<(String, u32)>>,
+    list_items: std::collections::BTreeMap<String, Vec<(String, i32)>>,
     /// Set of EXTERNAL function declaration names
     external_functions: BTreeSet<String>,
     /// Count flags required by explicit references to flow containers.
@@ -372,7 +372,7 @@ impl EmitContext {
     fn new(story: &ParsedStory, count_all_visits: bool) -> Self {
         let mut list_items = std::collections::BTreeMap::new();
         for list_decl in story.list_declarations() {
-            let items: Vec<(String, u32)> = list_decl
+            let items: Vec<(String, i32)> = list_decl
                 .items
                 .iter()
                 .map(|(name, value, _)| (format!("{}.{}", list_decl.name, name), *value))
@@ -444,7 +444,7 @@ impl EmitContext {
 
     /// Look up a bare item name (e.g. "b") across all lists.
     /// Returns the qualified name and value if found.
-    fn resolve_list_item(&self, bare_name: &str) -> Option<(String, u32)> {
+    fn resolve_list_item(&self, bare_name: &str) -> Option<(String, i32)> {
         // If already qualified (contains '.'), use as-is
         if bare_name.contains('.') {
             for items in self.list_items.values() {
